@@ -23,6 +23,32 @@ async fn run(name: &str) -> Result<(), String> {
     std::fs::create_dir_all(root.join("test")).unwrap();
     std::fs::create_dir_all(root.join("tests")).unwrap();
     match name {
+        // C14 (BOUNDED: one hand-made tree exercising every clause): discovery returns exactly the applicable files, each tagged with its directory
+        "discovery_exact_on_a_small_tree" => {
+            use std::collections::BTreeSet;
+            let w = |rel: &str, content: &str| { let p = root.join(rel); std::fs::create_dir_all(p.parent().unwrap()).unwrap(); std::fs::write(p, content).unwrap(); };
+            w(".gitignore", "/tests/\n");           // ignores tests/ (whose name has test as a textual prefix)
+            w(".ignore", "build/\n");                // a second file in the same directory ignores build/
+            w(".git/info/exclude", "*.swp\n");
+            w(".git/hooks/.gitignore", "x\n");       // inside a VCS metadata directory: never entered
+            w("test/.gitignore", "*.log\n");
+            w("tests/.gitignore", "*.tmp\n");        // inside an ignored directory
+            w("tests/deep/.ignore", "y\n");
+            w("build/.gitignore", "z\n");            // inside a directory ignored by the origin's .ignore
+            w("src/.ignore", "*.bak\n");
+            w("src/.hgignore", "*.orig\n");
+            w("src/empty/.gitignore", "");           // empty: does not count
+            w("src/nested/dir/.gitignore", "q\n");
+            let (files, errors) = ignore_files::from_origin(root.as_path()).await;
+            if !errors.is_empty() { return Err(format!("discovery reported errors: {errors:?}")); }
+            let got: BTreeSet<(PathBuf, Option<PathBuf>)> = files.iter().map(|f| (f.path.strip_prefix(&root).unwrap_or(&f.path).to_owned(), f.applies_in.as_ref().map(|a| a.strip_prefix(&root).unwrap_or(a).to_owned()))).collect();
+            let e = |p: &str, d: &str| (PathBuf::from(p), Some(PathBuf::from(d)));
+            let want: BTreeSet<(PathBuf, Option<PathBuf>)> = [e(".gitignore", ""), e(".ignore", ""), e(".git/info/exclude", ""), e("test/.gitignore", "test"), e("src/.ignore", "src"), e("src/.hgignore", "src"), e("src/nested/dir/.gitignore", "src/nested/dir")].into_iter().collect();
+            if files.len() != got.len() { return Err(format!("a file was returned more than once: {:?}", files.iter().map(|f| &f.path).collect::<Vec<_>>())); }
+            if got == want { Ok(()) } else {
+                Err(format!("discovery from the origin returned (path, applies in) = {:?}; unexpected {:?}; missing {:?}", got, got.difference(&want).collect::<Vec<_>>(), want.difference(&got).collect::<Vec<_>>()))
+            }
+        }
         // test/.gitignore re-includes *.rs; that negation must not leak into the sibling tests/ whose name has test as a textual prefix
         "prefix_sibling_negation" => {
             std::fs::write(root.join(".gitignore"), "*.rs\n").unwrap();
